@@ -55,7 +55,7 @@ theorem level_filter (h : Heap) (d : DS) (lvl : Nat) (file : File) (hw : writeDS
   writeDS_members h d lvl file hw
 
 /-- the same inside every collection -/
-theorem level_filter_nested (h : Heap) (lvl : Nat) (fs : List Field) (pre : String) (memo : WMemo)
+theorem level_filter_nested (h : Heap) (lvl : Nat) (fs : List Field) (pre : Path) (memo : WMemo)
     (groups : List (String × Grp)) (mem : List (String × Option Kind)) (memo' : WMemo)
     (hw : writeField.writeFields h lvl fs pre memo = .ok (groups, mem, memo')) :
     groups.map (·.1) = (restrictFields lvl fs).map Field.name ∧
@@ -68,14 +68,13 @@ theorem restricted_fields_have_level (lvl : Nat) (fs : List Field) :
   restrict_level lvl fs
 
 /-- an array without references is read back bit for bit -/
-theorem array_bit_identical (h : Heap) (file : File) (o : Nat) (ob : Obj) (fieldname : String) (wm : WMemo)
+theorem array_bit_identical (h : Heap) (file : File) (o : Nat) (ob : Obj) (p : Path) (wm : WMemo)
     (g : Grp) (wm' : WMemo) (fw fr : Nat) (s : RSt)
-    (hob : h[o]? = some ob) (hk : (ob.kind.hasOther || ob.kind.isDelta) = false)
-    (hw : writeArr h (fw + 1) o fieldname wm = .ok (g, wm')) :
-    wm' = wm ∧ g.attrs.fieldname = fieldname ∧
-    ∃ s', readArr file (fr + 1) g s = .ok (s.heap.length, s') ∧
-      s'.heap = s.heap ++ [{ ob with other := none, refPos := none }] :=
-  readArr_writeArr h file o ob fieldname wm g wm' fw fr s hob hk hw
+    (hob : h[o]? = some ob) (hk : attrName ob.kind = none)
+    (hw : writeArr h (fw + 1) o p wm = .ok (g, wm')) :
+    wm' = wm ∧ g.attrs.fieldname = p ∧
+    ∃ s', readArr file (fr + 1) g s = .ok (s.heap.length, s') ∧ s'.heap = s.heap ++ [ob.strip] :=
+  readArr_writeArr h file o ob p wm g wm' fw fr s hob hk hw
 
 /-- units: `None ↔ ""`, a real unit tuple as it is -/
 theorem units_identical (u : Option (List String)) (hu : ∀ us, u = some us → us.any (fun x => !x.isEmpty) = true) :
